@@ -129,18 +129,24 @@ def hyper_case(rng, cid):
     with_act = rng.random() < 0.6
     eqx_list = ((eqx.nn.Linear, nin, h),) + (((square,),) if with_act else ()) + ((eqx.nn.Linear, h, nout),)
     eqx_list_hyper = ((eqx.nn.Linear, 2, 3), (square,), (eqx.nn.Linear, 3, 1))
+    use_tin, use_tout = rng.random() < 0.6, rng.random() < 0.6
+    kw = {}
+    if use_tin:
+        kw["input_transform"] = lambda i, p: i * p.eq_params["a"]
+    if use_tout:
+        kw["output_transform"] = lambda i, o, p: o + p.eq_params["a"] * i[0]
     u = jinns.utils.create_HYPERPINN(jax.random.PRNGKey(rng.randrange(1 << 30)), eqx_list, eq_type, hyperparams=["a", "b"], hypernet_input_size=2,
-                                     dim_x=dim_x, eqx_list_hyper=eqx_list_hyper)
-    eqp = [dy(rng), dy(rng)]
+                                     dim_x=dim_x, eqx_list_hyper=eqx_list_hyper, **kw)
+    eqp = [dy(rng, 1, 3), dy(rng)]
     P = Params(nn_params=u.init_params(), eq_params={"a": jnp.array(eqp[0]), "b": jnp.array(eqp[1])})
     inputs = [dy(rng) for _ in range(nin)]
     out = u(jnp.array(inputs), P) if eq_type != "ODE" else u(jnp.array(inputs), P)
     hl = export_layers(u.init_params().layers, u.static_hyper.layers)
     shapes = [(h, nin), (nout, h)]
     acts = [with_act, False]
-    term = (f"Hyper {cnat(cid)} {clist(hl, clay)} {clist(eqp, cq)} {clist(shapes, lambda s: f'({cnat(s[0])}, {cnat(s[1])})')} {clist(acts, cbool)} "
+    term = (f"Hyper {cnat(cid)} {clist(hl, clay)} {clist(eqp, cq)} {clist(shapes, lambda s: f'({cnat(s[0])}, {cnat(s[1])})')} {clist(acts, cbool)} {cbool(use_tin)} {cbool(use_tout)} "
             f"{clist(inputs, cq)} {clist(np.asarray(out).ravel().tolist(), cq)}")
-    return term, dict(what="hyper", eq_type=eq_type, nout=nout, with_act=with_act), []
+    return term, dict(what="hyper", eq_type=eq_type, nout=nout, with_act=with_act, use_tin=use_tin, use_tout=use_tout), []
 
 
 def generate(tier, seed, casedir, variant):
@@ -167,7 +173,7 @@ def generate(tier, seed, casedir, variant):
             cid += 1
     write_cases(casedir, "C10", "R_C10", variant, cases, chunk=60)
     return dict(meta=meta, oracle_violations=viol, evaluations=len(cases), distinct_nontrivial=len(cases), samples=samples, distribution=dist,
-                rule="random architectures: create_PINN (ODE / stationary / non-stationary, input / output transforms reading an equation parameter, shared outputs given as slices or integer indices (0 included; either of the two networks is evaluated), bare network parameters, scalar or (1,) time), create_SPINN (d = 1..3, embedding size 1..3, 1..2 outputs, 1..3 batch points, four grid indices each), create_HYPERPINN (two designated parameters, inner network with or without activation); weights exported as exact rationals; every case is non-trivial and distinct (fresh random weights)",
+                rule="random architectures: create_PINN (ODE / stationary / non-stationary, input / output transforms reading an equation parameter, shared outputs given as slices or integer indices (0 included; either of the two networks is evaluated), bare network parameters, scalar or (1,) time), create_SPINN (d = 1..3, embedding size 1..3, 1..2 outputs, 1..3 batch points, four grid indices each), create_HYPERPINN (two designated parameters, inner network with or without activation, input / output transforms reading the inputs and an equation parameter); weights exported as exact rationals; every case is non-trivial and distinct (fresh random weights)",
                 oracle_checks=len(cases))
 
 
